@@ -31,3 +31,23 @@ Definition run_real_gen (k : Z) (ctx : list (bytes * Z)) (valid : option (list b
   | Ret None => out_none
   | _ => out_panic
   end.
+
+(* several INIT records in one symbol file (disjoint ranges, any file order): the record whose range covers the
+   lookup address is used (the RangeMap lookup itself belongs to C08; with disjoint ranges it is "the one that covers") *)
+Fixpoint find_record (rs : list cfi_record) (addr : Z) : option cfi_record :=
+  match rs with
+  | [] => None
+  | r :: t => if cfi_covers r addr then Some r else find_record t addr
+  end.
+Definition run_mock_multi_gen (w lookup : Z) (regs : list (bytes * Z)) (membase : Z) (mem : bytes)
+                              (rs : list cfi_record) (names : list bytes) : c06_out :=
+  let E := mock_env w lookup regs membase mem false 0 in
+  match find_record rs lookup with
+  | None => out_none
+  | Some r =>
+      match gen_walk_frame_cfi (mock_ops w) Debug E r lookup m_init with
+      | Ret (Some s) => observe_mock names s
+      | Ret None => out_none
+      | _ => out_panic
+      end
+  end.
